@@ -21,7 +21,7 @@ class C03(Prop):
     LONG_BIAS = 0.2
     WEIGHTS = {"page": 2, "pages": 1, "links": 6, "batch": 6, "again": 3, "create": 1, "delete": 1, "addprefix": 1,
                "rmprefix": 0, "move": 0, "rule": 1, "unrule": 0, "reopen": 1}
-    QUICK = (14, 18)
+    QUICK = (40, 18)
     THOROUGH = (200, 40)
     ASSUMPTIONS = ["Counter of submitted (source,target) pairs is the ground truth"]
 
